@@ -13,12 +13,12 @@ RULE = ("one group of k identical files (k=2..4 quick, 2..5 thorough) at differe
         "partition of the paths into hard-link sets, distinct (permuted) or tied timestamps; x every single priority "
         "(12) and ordered pairs of priorities x pattern sets {none, --name, --path, --keep-name, --keep-path, "
         "--name + --keep-name} x n in {unset,1,2,3} given as -n or --rf-over; inheritance cases where the settings come "
-        "only from the report header ({--isolate, -H, --rf-over 2, --transform}); observed = files named by the "
+        "only from the report header ({--isolate, -H, --rf-over 2, --transform}); isolate roots holding several files with different times: every assignment of time ranks to 4 (thorough: 5) files x every attribute priority, --isolate inherited or given to the dedupe command; observed = files named by the "
         "--dry-run script (and, for a sample, the effect of a real run); oracle = reference selection written from the "
         "statement. Non-trivial = reference drops at least one file; distinct by (structure, times, options).")
-ASSUMPTIONS = ["how a multi-file sub-group aggregates timestamps / nesting is not part of the statement: timestamp "
-               "priorities are only combined with sub-groups whose files share the attribute (hard links), nesting "
-               "priorities only with sub-groups of equal depth",
+ASSUMPTIONS = ["a sub-group of several files (isolate root) is ranked by the aggregate that the accessors of FileSubGroup "
+               "document: earliest creation; latest modification, access and status change; least / most nested path "
+               "(violations that depend on this reading carry subgroup_attribute_aggregated=true)",
                "birth time and ctime cannot be set: they are produced by creation / chmod order with 20 ms spacing and "
                "read back with statx"]
 
@@ -89,6 +89,17 @@ def cases(tier, seed):
                 idx += 1
                 out.append({"k": k, "rgs": rgs, "prio": pl, "pat": "none", "pat_args": [], "n": None, "tied": False,
                             "inherit": inh, "real": idx % 4 == 0, "op": ["remove", "link", "softlink", "move"][idx % 4]})
+    # sub-groups of several files with different attributes (isolate roots): every assignment of time ranks to the
+    # files x every attribute priority; r1 holds f0..f2, r1x the rest
+    for k in ((4,) if quick else (4, 5)):
+        for perm in itertools.permutations(range(k)):
+            for pr in PRIOS[2:]:
+                idx += 1
+                if quick and "nested" in pr and perm != tuple(range(k)):
+                    continue
+                out.append({"k": k, "rgs": list(range(k)), "prio": [pr], "pat": "none", "pat_args": [], "n": None,
+                            "tied": False, "inherit": "isolate" if idx % 2 else "isolate_cli", "real": False,
+                            "op": ["remove", "link", "softlink", "move"][idx % 4], "perm": list(perm)})
     # a large group: sort routines behave differently beyond a few dozen elements (stability of ties)
     big_paths = ["r1/x%02d/%sf" % (i, "deep/" if i % 3 else "") for i in range(40)]
     for pl in (["most-nested"], ["least-nested"], ["least-nested", "top"], ["bottom", "most-nested"], ["top"], []):
@@ -111,6 +122,8 @@ def build(sc, case):
         order_b = list(reversed(range(m)))
     rot = lambda lst, r: lst[r % len(lst):] + lst[:r % len(lst)]
     order_m, order_a, order_c = rot(order_b, 1), rot(list(range(m)), 2), rot(order_b, 3)
+    if case.get("perm"):
+        order_b = order_m = order_a = order_c = list(case["perm"])
     content = b"identical content of every member"
     first = {}
     for b in sorted(blocks, key=lambda b: order_b[b]):
@@ -181,13 +194,12 @@ def reference(report_paths, case, sc, opts):
             else:
                 seen[info[p]["id"]] = [p]
                 subs.append(seen[info[p]["id"]])
-    # outside the alphabet: attribute not shared inside a sub-group
-    for pr in case["prio"]:
-        for sg in subs:
-            if "nested" in pr and len(set(info[p]["depth"] for p in sg)) > 1:
-                return None
-            if pr not in ("top", "bottom") and "nested" not in pr and len(set(info[p]["id"] for p in sg)) > 1:
-                return None
+    # a sub-group of several files ranks by the aggregate its accessors document (FileSubGroup::created "earliest
+    # creation", modified / accessed / status_changed "latest ...", min_nesting / max_nesting)
+    opts["aggregated"] = any(
+        ("nested" in pr and len(set(info[p]["depth"] for p in sg)) > 1) or
+        (pr not in ("top", "bottom") and "nested" not in pr and len(set(info[p]["id"] for p in sg)) > 1)
+        for pr in case["prio"] for sg in subs)
     keyf = {
         "newest": lambda sg: min(info[p]["btime"] for p in sg),
         "oldest": lambda sg: -min(info[p]["btime"] for p in sg),
@@ -255,7 +267,10 @@ def evaluate(case):
         roots = ["r1", "r1x"]
         opts = {}
         inh = case["inherit"]
-        if inh in ("isolate", "isolate_dot"):
+        if inh == "isolate_cli":
+            # the report is made without --isolate; the dedupe command gets it with the roots
+            opts["isolate_roots"] = [sc.path("r1").decode(), sc.path("r1x").decode()]
+        elif inh in ("isolate", "isolate_dot"):
             gargs.append("--isolate")
             if inh == "isolate_dot":
                 roots = ["./r1", "r1x/../r1x"]
@@ -277,15 +292,17 @@ def evaluate(case):
             raise C.MachineryError("expected one group, got %d" % len(rep.groups))
         rpaths = [C.u(p) for p in rep.groups[0]["paths"]]
         dargs = list(case["pat_args"])
+        if inh == "isolate_cli":
+            for r in opts["isolate_roots"]:
+                dargs += ["--isolate", r]
         for pr in case["prio"]:
             dargs += ["--priority", pr]
         if case["n"]:
             dargs += [case["n"][0], str(case["n"][1])]
             opts["n"] = case["n"][1]
         ref = reference(rpaths, case, sc, opts)
-        if ref is None:
-            return {"violations": [], "nontrivial": None, "outcome": "outside_alphabet"}
         exp_drop, exp_keep = ref
+        feat["subgroup_attribute_aggregated"] = opts.get("aggregated", False)
         op = case["op"]
         target = os.path.join(sc.root, "moved") if op == "move" else None
         r = D.run_dedupe(sc, op, dargs, report, dry_run=True, target=target)
@@ -333,9 +350,9 @@ def evaluate(case):
                     if not ok:
                         viol.append(dict(feat, kind="real_run_differs_from_selection", op=op,
                                          detail="%s after %s: %s" % (p, op, b2)))
-    nontriv = [case["k"], case["rgs"], case["prio"], case["pat"], case["n"], case["tied"], case["inherit"]] if exp_drop else None
+    nontriv = [case["k"], case["rgs"], case["prio"], case["pat"], case["n"], case["tied"], case["inherit"], case.get("perm")] if exp_drop else None
     return {"violations": viol, "nontrivial": nontriv, "outcome": "drops" if exp_drop else "nothing_to_drop",
-            "counters": {"real_runs": 1 if case["real"] else 0},
+            "counters": {"real_runs": 1 if case["real"] else 0, "aggregated_subgroups": 1 if opts.get("aggregated") else 0},
             "sample": {"case": {k: case[k] for k in ("k", "rgs", "prio", "pat_args", "n", "inherit", "op")},
                        "report_order": [x.split("/t/")[-1] for x in rpaths],
                        "dropped": sorted(x.split("/t/")[-1] for x in exp_drop)}}
